@@ -340,6 +340,14 @@ class CoreEnforcer:
 
         self.model.build_role_links(self.rm_map)
 
+    def _build_incremental_role_links(self, op, ptype, rules):
+        """maintains the role links of one role definition after rules were added to or removed from it: through its
+        role manager, or through its conditional role manager when the definition carries link-condition parameters."""
+        if ptype in self.rm_map:
+            self.model.build_incremental_role_links(self.rm_map[ptype], op, "g", ptype, rules)
+        if ptype in self.cond_rm_map:
+            self.model.build_incremental_conditional_role_links(self.cond_rm_map[ptype], op, "g", ptype, rules)
+
     def add_named_matching_func(self, ptype, fn):
         """add_named_matching_func add MatchingFunc by ptype RoleManager"""
         try:
